@@ -529,7 +529,8 @@ theorem repAdd_get_eq (rep : PyDict String (List Chain)) (id : String) (cur : Li
 structure RepSem (F : List String) (S : Schema) (done : List SRule) (rep : PyDict String (List Chain)) : Prop where
   sound : ∀ q chains, PyDict.get? rep q = some chains → ∀ c ∈ chains,
     c.id = q ∧ ∃ r ∈ done, r.id = q ∧ c.sign = isort strLe r.sign ∧ ∃ f, ExpandsDef S r f ∧ Impl F c f
-  complete : ∀ r ∈ done, ∀ f, ExpandsDef S r f → ∃ chains, PyDict.get? rep r.id = some chains ∧ ∃ c ∈ chains, Impl F c f
+  complete : ∀ r ∈ done, ∀ f, ExpandsDef S r f → ∃ chains, PyDict.get? rep r.id = some chains ∧
+    ∃ c ∈ chains, c.sign = isort strLe r.sign ∧ Impl F c f
 
 /-- references point to identifiers all of whose definitions stand earlier -/
 def RefsDone (S : Schema) (done srs : List SRule) : Prop :=
@@ -727,7 +728,9 @@ theorem replicateLoop_sem {F : List String} {S : Schema} : ∀ {srs : List SRule
         refine ⟨h1, fun g hg => ?_⟩
         obtain ⟨r', hr', hr'q, hf⟩ := expands_iff.mp hg
         rcases h2 r' hr' hr'q with hd | hd
-        · rw [← hr'q]; exact hsem.complete r' hd g hf
+        · rw [← hr'q]
+          obtain ⟨chains, hch, c, hc, _, himpl⟩ := hsem.complete r' hd g hf
+          exact ⟨chains, hch, c, hc, himpl⟩
         · simp at hd
       obtain ⟨e1, e2, e3⟩ := expandName_prog (rid := nr.id) hdisj hsound hname (fun t ht => ht) hownnd hrefs0
         (initChains nr) nt cur nt' hnt' hrt' hexp
@@ -811,19 +814,19 @@ theorem replicateLoop_sem {F : List String} {S : Schema} : ∀ {srs : List SRule
          by
           intro r hr f hf
           rcases List.mem_append.mp hr with hr | hr
-          · obtain ⟨chains, hch, c, hc, himpl⟩ := hsem.complete r hr f hf
+          · obtain ⟨chains, hch, c, hc, hsgc, himpl⟩ := hsem.complete r hr f hf
             rw [hget r.id]
             split
             · rename_i he
               rw [he, hch]
-              exact ⟨_, rfl, c, List.mem_append_left _ hc, himpl⟩
-            · exact ⟨chains, hch, c, hc, himpl⟩
+              exact ⟨_, rfl, c, List.mem_append_left _ hc, hsgc, himpl⟩
+            · exact ⟨chains, hch, c, hc, hsgc, himpl⟩
           · simp only [List.mem_singleton] at hr
             subst hr
             obtain ⟨cs, hcs, f0, hf0, rfl⟩ := hf
             obtain ⟨c, hc, himpl⟩ := hcurC cs hcs f0 hf0
             rw [hget r.id, if_pos hid]
-            exact ⟨_, rfl, c, List.mem_append_right _ hc, himpl⟩⟩
+            exact ⟨_, rfl, c, List.mem_append_right _ hc, hcursg c hc, himpl⟩⟩
         h
       rw [List.append_assoc] at hres
       exact hres
